@@ -17,7 +17,7 @@
        access by idx >= keys_len() only, and FastItemIterator used get_leaf_unchecked for
        the first leaf and for leaf.next. *)
 From BPT Require Import Common.Base Common.AMap Rust.Arena Rust.Tree Rust.Heap Rust.Readers
-     Rust.Run Rust.Spec Rust.Damage Rust.NoUB.
+     Rust.Run Rust.InvDefs Rust.Spec Rust.Damage Rust.NoUB Rust.ValidDefs Rust.ReachDefs Rust.Reach.
 Set Implicit Arguments.
 
 Section RustLegacy.
@@ -268,7 +268,7 @@ End RustLegacy.
 (* ======================= witnesses, on V := Z ======================= *)
 Local Open Scope Z_scope.
 
-(* insert (mkKey z id, v) for each triple, into a new map of the given capacity *)
+(* BPlusTreeMap::new(c), then insert (mkKey z id, v) for each triple of the list *)
 Definition build (c : nat) (l : list (Z * N * Z)) : option (bstate Z) :=
   fold_left (fun ob '(z, id, v) =>
                match ob with
@@ -276,8 +276,267 @@ Definition build (c : nat) (l : list (Z * N * Z)) : option (bstate Z) :=
                | None => None
                end) l (b_new Z c).
 
-Definition dummy : bstate Z := mkB 4 (PLeaf 0%N 4 [] [] NULL) (mkMeta [true] []) (mkMeta [] []).
-Definition built (c : nat) (l : list (Z * N * Z)) : bstate Z :=
-  match build c l with Some b => b | None => dummy end.
+Definition b_empty4 : bstate Z := mkB 4 (PLeaf 0%N 4 [] [] NULL) (mkMeta [true] []) (mkMeta [] []).
+Example b_new4 : b_new Z 4 = Some b_empty4.
+Proof. vm_compute. reflexivity. Qed.
 
-Definition tests := 0.
+Definition built (c : nat) (l : list (Z * N * Z)) : bstate Z :=
+  match build c l with Some b => b | None => b_empty4 end.
+
+(* the same history as a list of operations of [Run.step] *)
+Definition ops_of (l : list (Z * N * Z)) : list (op Z) :=
+  map (fun '(z, id, v) => OInsert (mkKey z id) v) l.
+
+(* ---- the map of D1, D2 and D11: capacity 4, keys 1,3,...,15 inserted in order ---- *)
+Definition odd_entries : list (Z * N * Z) :=
+  [(1, 0%N, 10); (3, 1%N, 30); (5, 2%N, 50); (7, 3%N, 70);
+   (9, 4%N, 90); (11, 5%N, 110); (13, 6%N, 130); (15, 7%N, 150)].
+Definition b_odd : bstate Z := built 4 odd_entries.
+Definition h_odd : heap Z := flatten b_odd.
+
+(* three leaves 0 -> 1 -> 2 under one branch *)
+Example b_odd_built :
+  build 4 odd_entries =
+  Some (mkB 4
+    (PBranch 0%N 4 [mkKey 5 2%N; mkKey 9 4%N]
+       [PLeaf 0%N 4 [mkKey 1 0%N; mkKey 3 1%N] [10; 30] 1%N;
+        PLeaf 1%N 4 [mkKey 5 2%N; mkKey 7 3%N] [50; 70] 2%N;
+        PLeaf 2%N 4 [mkKey 9 4%N; mkKey 11 5%N; mkKey 13 6%N; mkKey 15 7%N] [90; 110; 130; 150] NULL])
+    (mkMeta [true; true; true] []) (mkMeta [true] [])).
+Proof. vm_compute. reflexivity. Qed.
+
+Example b_odd_run : fst (run b_empty4 (ops_of odd_entries)) = b_odd.
+Proof. vm_compute. reflexivity. Qed.
+
+(* it is a reachable state of the verified model: the invariant holds *)
+Lemma b_odd_inv : Inv b_odd.
+Proof.
+  destruct (@reachable_inv Z 4%nat (ops_of odd_entries)) as (b0 & E & I & _).
+  - apply le_n.
+  - vm_compute. reflexivity.
+  - rewrite b_new4 in E. injection E as E. subst b0. rewrite b_odd_run in I. exact I.
+Qed.
+
+Example b_odd_contents :
+  contents (root b_odd) =
+  [(mkKey 1 0%N, 10); (mkKey 3 1%N, 30); (mkKey 5 2%N, 50); (mkKey 7 3%N, 70);
+   (mkKey 9 4%N, 90); (mkKey 11 5%N, 110); (mkKey 13 6%N, 130); (mkKey 15 7%N, 150)].
+Proof. vm_compute. reflexivity. Qed.
+
+(* ================= D1 ================= *)
+(* range((Excluded(6), Unbounded)): 6 is absent; 7 is the first entry in range *)
+Example d1_refuted :
+  range_collect_legacy h_odd (Excluded 6) Unbounded =
+    Ok [(mkKey 9 4%N, 90); (mkKey 11 5%N, 110); (mkKey 13 6%N, 130); (mkKey 15 7%N, 150)] /\
+  range_collect h_odd (Excluded 6) Unbounded =
+    Ok [(mkKey 7 3%N, 70); (mkKey 9 4%N, 90); (mkKey 11 5%N, 110); (mkKey 13 6%N, 130);
+        (mkKey 15 7%N, 150)].
+Proof. vm_compute. split; reflexivity. Qed.
+
+(* with a PRESENT excluded key both versions agree (the skip is armed rightly) *)
+Example d1_present_key_agrees :
+  range_collect_legacy h_odd (Excluded 7) Unbounded = range_collect h_odd (Excluded 7) Unbounded /\
+  range_collect h_odd (Excluded 7) Unbounded =
+    Ok [(mkKey 9 4%N, 90); (mkKey 11 5%N, 110); (mkKey 13 6%N, 130); (mkKey 15 7%N, 150)].
+Proof. vm_compute. split; reflexivity. Qed.
+
+(* in the words of the property (Spec: range returns m_range of the contents) *)
+Theorem range_excluded_absent_refuted :
+  exists (b : bstate Z) lo hi, Inv b /\
+    range_collect_legacy (flatten b) lo hi <> Ok (m_range (contents (root b)) lo hi).
+Proof.
+  exists b_odd, (Excluded 6), Unbounded. split; [exact b_odd_inv|].
+  vm_compute. discriminate.
+Qed.
+
+Example range_excluded_absent_repaired :
+  range_collect (flatten b_odd) (Excluded 6) Unbounded
+  = Ok (m_range (contents (root b_odd)) (Excluded 6) Unbounded).
+Proof. vm_compute. reflexivity. Qed.
+
+(* ================= D2 ================= *)
+(* ItemIterator::new_from_position_with_bounds(first_leaf, 0, Bound::Included(&5)) *)
+Example first_leaf_odd : get_first_leaf_id h_odd = Ok (Some 0%N).
+Proof. vm_compute. reflexivity. Qed.
+
+Example d2_refuted :
+  from_position_collect_legacy h_odd 0%N 0 (Some (5, true)) =
+    Ok [(mkKey 1 0%N, 10); (mkKey 3 1%N, 30)] /\
+  from_position_collect h_odd 0%N 0 (Some (5, true)) =
+    Ok [(mkKey 1 0%N, 10); (mkKey 3 1%N, 30); (mkKey 5 2%N, 50)].
+Proof. vm_compute. split; reflexivity. Qed.
+
+(* with an EXCLUDED end key both versions agree *)
+Example d2_excluded_agrees :
+  from_position_collect_legacy h_odd 0%N 0 (Some (5, false)) =
+    from_position_collect h_odd 0%N 0 (Some (5, false)) /\
+  from_position_collect h_odd 0%N 0 (Some (5, false)) = Ok [(mkKey 1 0%N, 10); (mkKey 3 1%N, 30)].
+Proof. vm_compute. split; reflexivity. Qed.
+
+(* in the words of the property: an iterator positioned on the first entry with end
+   bound Included(e) yields the entries with key <= e *)
+Theorem from_position_included_refuted :
+  exists (b : bstate Z) id e, Inv b /\ get_first_leaf_id (flatten b) = Ok (Some id) /\
+    from_position_collect_legacy (flatten b) id 0 (Some (e, true))
+    <> Ok (m_range (contents (root b)) Unbounded (Included e)).
+Proof.
+  exists b_odd, 0%N, 5. split; [exact b_odd_inv|]. split; [exact first_leaf_odd|].
+  vm_compute. discriminate.
+Qed.
+
+Example from_position_included_repaired :
+  from_position_collect (flatten b_odd) 0%N 0 (Some (5, true))
+  = Ok (m_range (contents (root b_odd)) Unbounded (Included 5)).
+Proof. vm_compute. reflexivity. Qed.
+
+(* ================= D10 ================= *)
+(* capacity 4, keys 0..19 inserted in order (value 100*i); then the first leaf is emptied
+   through the safe node helpers (get_leaf_mut + take_keys/take_values) *)
+Definition seq_entries : list (Z * N * Z) :=
+  map (fun i => (Z.of_nat i, N.of_nat i, 100 * Z.of_nat i)) (seq 0 20).
+Definition b20 : bstate Z := built 4 seq_entries.
+
+(* nine leaves under three branches under a root branch; leaf 0 is not the root *)
+Example b20_built :
+  build 4 seq_entries =
+  Some (mkB 4
+    (PBranch 2%N 4 [mkKey 6 6%N; mkKey 12 12%N]
+       [PBranch 0%N 4 [mkKey 2 2%N; mkKey 4 4%N]
+          [PLeaf 0%N 4 [mkKey 0 0%N; mkKey 1 1%N] [0; 100] 1%N;
+           PLeaf 1%N 4 [mkKey 2 2%N; mkKey 3 3%N] [200; 300] 2%N;
+           PLeaf 2%N 4 [mkKey 4 4%N; mkKey 5 5%N] [400; 500] 3%N];
+        PBranch 1%N 4 [mkKey 8 8%N; mkKey 10 10%N]
+          [PLeaf 3%N 4 [mkKey 6 6%N; mkKey 7 7%N] [600; 700] 4%N;
+           PLeaf 4%N 4 [mkKey 8 8%N; mkKey 9 9%N] [800; 900] 5%N;
+           PLeaf 5%N 4 [mkKey 10 10%N; mkKey 11 11%N] [1000; 1100] 6%N];
+        PBranch 3%N 4 [mkKey 14 14%N; mkKey 16 16%N]
+          [PLeaf 6%N 4 [mkKey 12 12%N; mkKey 13 13%N] [1200; 1300] 7%N;
+           PLeaf 7%N 4 [mkKey 14 14%N; mkKey 15 15%N] [1400; 1500] 8%N;
+           PLeaf 8%N 4 [mkKey 16 16%N; mkKey 17 17%N; mkKey 18 18%N; mkKey 19 19%N]
+                 [1600; 1700; 1800; 1900] NULL]])
+    (mkMeta [true; true; true; true; true; true; true; true; true] [])
+    (mkMeta [true; true; true; true] [])).
+Proof. vm_compute. reflexivity. Qed.
+
+Definition damaged : heap Z := apply_edit (flatten b20) (ELeafTrunc Z 0 0).
+
+Example damaged_first_leaf :
+  get_leaf damaged 0%N = Some (mkLeaf 4 [] [] 1%N).
+Proof. vm_compute. reflexivity. Qed.
+
+Example d10_refuted :
+  check_invariants_legacy damaged = Ok true /\
+  check_invariants_detailed_legacy damaged = Ok None /\
+  check_invariants damaged = Ok false.
+Proof. vm_compute. repeat split; reflexivity. Qed.
+
+Example d10_detailed_repaired : check_invariants_detailed damaged = Ok (Some E_TREE).
+Proof. vm_compute. reflexivity. Qed.
+
+(* on the undamaged map both versions accept *)
+Example d10_undamaged_agrees :
+  check_invariants_legacy (flatten b20) = Ok true /\ check_invariants (flatten b20) = Ok true /\
+  check_invariants_detailed_legacy (flatten b20) = Ok None /\
+  check_invariants_detailed (flatten b20) = Ok None.
+Proof. vm_compute. repeat split; reflexivity. Qed.
+
+(* in the words of the property (C14, ValidSound.damaged_rejected /
+   detailed_rejects_damage): a reachable node that is not [node_ok] makes the validators
+   answer false / Err.  The pre-repair validators accept one. *)
+Theorem validator_empty_node_refuted :
+  exists (h : heap Z) r isroot lo hi,
+    hreach h r isroot lo hi /\ ~ node_ok h r isroot lo hi /\
+    check_invariants_legacy h = Ok true /\ check_invariants_detailed_legacy h = Ok None.
+Proof.
+  exists damaged, (RLeaf 0%N), false.
+  eexists. eexists. split; [|split].
+  - eapply (@hreach_child Z damaged 0%N _ false _ _ 0%nat (RLeaf 0%N)).
+    + eapply (@hreach_child Z damaged 2%N _ true None None 0%nat (RBranch 0%N)).
+      * exact (hreach_root damaged).
+      * vm_compute. reflexivity.
+      * vm_compute. reflexivity.
+    + vm_compute. reflexivity.
+    + vm_compute. reflexivity.
+  - intros (l & Hg & _ & _ & _ & Hocc & _).
+    rewrite damaged_first_leaf in Hg. injection Hg as Hg. subst l.
+    specialize (Hocc eq_refl). vm_compute in Hocc. lia.
+  - destruct d10_refuted as (H1 & H2 & _). split; assumption.
+Qed.
+
+(* ================= D11 ================= *)
+(* (a) get_leaf_mut(first leaf).push_key(k): a key without a value *)
+Definition pushed : heap Z := apply_edit h_odd (ELeafPushKey Z 0 (mkKey 4 8%N)).
+(* (b) set_leaf_next(first leaf, 12345): a link to a slot outside the arena *)
+Definition dangling : heap Z := apply_edit h_odd (ELeafNext Z 0 (TRaw 12345%N)).
+(* (c) the root replaced by Leaf(77): FastItemIterator::new follows it unchecked *)
+Definition wild_root : heap Z := apply_edit h_odd (ERoot Z true 77%N).
+
+Example pushed_first_leaf :
+  get_leaf pushed 0%N = Some (mkLeaf 4 [mkKey 1 0%N; mkKey 3 1%N; mkKey 4 8%N] [10; 30] 1%N).
+Proof. vm_compute. reflexivity. Qed.
+Example dangling_first_leaf :
+  get_leaf dangling 0%N = Some (mkLeaf 4 [mkKey 1 0%N; mkKey 3 1%N] [10; 30] 12345%N) /\
+  get_leaf dangling 12345%N = None.
+Proof. vm_compute. split; reflexivity. Qed.
+
+Example d11_refuted :
+  (exists site, items_legacy pushed = UB site) /\
+  (exists site, items_fast_legacy dangling = UB site) /\
+  items pushed =
+    Ok [(mkKey 1 0%N, 10); (mkKey 3 1%N, 30); (mkKey 5 2%N, 50); (mkKey 7 3%N, 70);
+        (mkKey 9 4%N, 90); (mkKey 11 5%N, 110); (mkKey 13 6%N, 130); (mkKey 15 7%N, 150)] /\
+  items_fast dangling = Ok [(mkKey 1 0%N, 10); (mkKey 3 1%N, 30)].
+Proof.
+  split; [exists 170%nat; vm_compute; reflexivity|].
+  split; [exists 420%nat; vm_compute; reflexivity|].
+  vm_compute. split; reflexivity.
+Qed.
+
+(* the sites: the unchecked key/value access of try_get_next_item (line 170) and the
+   get_leaf_unchecked(leaf.next) of FastItemIterator::next (line 420) *)
+Example d11_sites :
+  items_legacy pushed = UB 170 /\ items_fast_legacy dangling = UB 420 /\
+  items_fast_legacy wild_root = UB 379 /\ items_fast wild_root = Ok [].
+Proof. vm_compute. repeat split; reflexivity. Qed.
+
+Corollary d11_repaired_no_ub :
+  items pushed <> UB 170 /\ (forall site, items_fast dangling <> UB site).
+Proof.
+  destruct d11_refuted as (_ & _ & H1 & H2). rewrite H1, H2. split; [|intros site]; discriminate.
+Qed.
+
+(* on the undamaged map the pre-repair iterators return the contents *)
+Example d11_undamaged_agrees :
+  items_legacy h_odd = items h_odd /\ items_fast_legacy h_odd = items_fast h_odd /\
+  items h_odd = Ok (contents (root b_odd)) /\ items_fast h_odd = Ok (contents (root b_odd)).
+Proof. vm_compute. repeat split; reflexivity. Qed.
+
+(* in the words of the property (NoUB.readers_no_ub: no reader reaches UB on ANY heap):
+   one call of a safe helper on a reachable map makes the pre-repair iterators do so *)
+Theorem items_no_ub_refuted :
+  exists (b : bstate Z) (e : edit Z), Inv b /\ ~ no_ub (items_legacy (apply_edit (flatten b) e)).
+Proof.
+  exists b_odd, (ELeafPushKey Z 0 (mkKey 4 8%N)). split; [exact b_odd_inv|].
+  intros H. apply (H 170%nat). vm_compute. reflexivity.
+Qed.
+
+Theorem items_fast_no_ub_refuted :
+  exists (b : bstate Z) (e : edit Z), Inv b /\ ~ no_ub (items_fast_legacy (apply_edit (flatten b) e)).
+Proof.
+  exists b_odd, (ELeafNext Z 0 (TRaw 12345%N)). split; [exact b_odd_inv|].
+  intros H. apply (H 420%nat). vm_compute. reflexivity.
+Qed.
+
+Example items_no_ub_repaired :
+  no_ub (items pushed) /\ no_ub (items_fast dangling) /\ no_ub (items_fast wild_root).
+Proof. split; [|split]; [apply items_no_ub | apply items_fast_no_ub | apply items_fast_no_ub]. Qed.
+
+Print Assumptions d1_refuted.
+Print Assumptions d2_refuted.
+Print Assumptions d10_refuted.
+Print Assumptions d11_refuted.
+Print Assumptions range_excluded_absent_refuted.
+Print Assumptions from_position_included_refuted.
+Print Assumptions validator_empty_node_refuted.
+Print Assumptions items_no_ub_refuted.
+Print Assumptions items_fast_no_ub_refuted.
